@@ -160,6 +160,17 @@ let dispatch (cmd : string) (t : tree) : tree =
       (match Refine.select (r_list mk cs) with
        | None -> L []
        | Some c -> L [L [w_nat c.Refine.c_comp; w_nat c.Refine.c_pos]])
+  | "refine_select_sq", [cs] ->
+      (* candidates with their look-ahead predictions: [comp, pos, [[pred, targ] per requested output], cost]; a value is [] (NaN) | [q];
+         returns [] | [[comp, pos]] and, second, the squared indicators (None = []) *)
+      let rv t = r_list (fun c -> match as_list c with [] -> None | [v] -> Some (r_q v) | _ -> failwith "value") t in
+      let mk t = match as_list t with
+        | [ci; pos; outs; cost] ->
+            { Refine.p_comp = r_nat ci; Refine.p_pos = r_nat pos; Refine.p_outs = r_list (r_pair rv rv) outs; Refine.p_cost = r_q cost }
+        | _ -> failwith "pcand" in
+      let cs = r_list mk cs in
+      L [(match Refine.select_sq cs with None -> L [] | Some c -> L [L [w_nat c.Refine.p_comp; w_nat c.Refine.p_pos]]);
+         w_list (fun c -> w_opt w_q (Refine.indicator_sq c)) cs]
   | "grid_run", [kpl; rr; latent; batches] ->
       let batches = r_list (r_list (r_pair (r_list r_nat) (r_list r_nat))) batches in
       let (_, evals) = Grid.run_history (fun k -> k) [] (r_nat kpl) (r_bool rr) (r_list r_nat latent) batches in
